@@ -233,6 +233,7 @@ def run(ctx):
     rnd = random.Random(ctx.seed)
     q = ctx.quick
     ctx.mc('MC_VMSA', coverage=False, timeout=3000)
+    ctx.mc('MC_LPAE', coverage=False, timeout=3000)
     tasks = [(vmsa_task, dict(name='vmsa-%d' % i, seed=ctx.seed + i, tables=6 if q else 120, per_table=40)) for i in range(16)]
     tasks += [(vmsa_ld_task, dict(name='lpae-%d' % i, seed=ctx.seed + 50 + i, tables=3 if q else 60, per_table=50)) for i in range(16)]
     groups = C.parallel(_dispatch, tasks)
